@@ -425,3 +425,132 @@ PROPERTIES['C01']['explanation'] = (
     'operators, of function calls with 0..3 arguments, of text and numeric literals, on the real bodies for arbitrary operand texts); '
     'with the ground fact that AstBuilder.append hands set_expr the popped operands in order, the exported text of a tree is its rendering '
     'by structural induction.  ' + PROPERTIES['C01']['explanation'])
+
+
+# ------------------------------------------------------------------------------------ unary / binary sign disambiguation
+def _utok(cls, **attr):
+    from pyvc.contract import TypeGen
+    return ObjT(cls, {'attr': RecordT({k: (v if isinstance(v, TypeGen) else ConstT(v)) for k, v in attr.items()}), 'source': ConstT('')})
+
+
+_PREV = OneOf(_utok('formulas.tokens.operand:Number', name='1'), _utok('formulas.tokens.operand:String', name='a'),
+              _utok('formulas.tokens.operator:OperatorToken', name='*'), _utok('formulas.tokens.operator:OperatorToken', name='%'),
+              _utok('formulas.tokens.operator:Separator', name=','),
+              _utok('formulas.tokens.parenthesis:Parenthesis', name='(', start='('),
+              _utok('formulas.tokens.parenthesis:Parenthesis', name=')', end=')'),
+              _utok('formulas.tokens.function:Function', name='SUM'))
+
+
+def lemma_update_name(self, prev):
+    tokens = [prev, self]
+    self.update_name(tokens, [])
+    return self.attr['name']
+
+
+def lemma_update_name_first(self):
+    tokens = [self]
+    self.update_name(tokens, [])
+    return self.attr['name']
+
+
+def _update_name_contracts(sg):
+    c = Contract(lambda: lemma_update_name, dict(self=_utok('formulas.tokens.operator:OperatorToken', name=sg), prev=_PREV), 'C01',
+                 name='Operator.update_name[%s]' % sg, use=[], frame=('self',))
+    CONTRACTS.append(c)
+
+    @c.ensures('a-sign-is-binary-after-an-operand-a-closing-parenthesis-or-a-percent-else-unary', 'P')
+    def _(self, prev, result):
+        from formulas.tokens.operand import Operand
+        binary = isinstance(prev, Operand) or prev.attr['name'] in (')', '%')
+        return result == (sg if binary else 'u' + sg)
+
+    @c.canary('canary:always-binary')
+    def _(self, prev, result):
+        return result == sg
+    c0 = Contract(lambda: lemma_update_name_first, dict(self=_utok('formulas.tokens.operator:OperatorToken', name=sg)), 'C01',
+                  name='Operator.update_name[%s at the start]' % sg, use=[], frame=('self',))
+    CONTRACTS.append(c0)
+
+    @c0.ensures('a-leading-sign-is-unary', 'P')
+    def _(self, result):
+        return result == 'u' + sg
+
+
+for _sg in '+-':
+    _update_name_contracts(_sg)
+
+
+# ------------------------------------------------------------------------------------ the shunting-yard step of an operator
+# Operator.ast on stacks of depth <= 2 (one representative operator per precedence class on the stack, every binary and postfix
+# operator incoming): exactly the operators on top whose Excel rank is not lower than the incoming one's are moved to the
+# output, in stack order (left association), then the incoming operator is pushed.  Ranks come from the spec table SPEC_RANK,
+# not from the code.
+_CLASS_REPS = [':', 'u-', '%', '^', '*', '+', '&', '=']
+_INCOMING = ['+', '-', '*', '/', '^', '&', '=', '<>', '<', '>', '<=', '>=', '%', ':', ',', ' ']
+
+
+def _optok(name):
+    return _utok('formulas.tokens.operator:OperatorToken', name=name)
+
+
+_StackOp = OneOf(*[_optok(n) for n in _CLASS_REPS])
+_OpenPar = _utok('formulas.tokens.parenthesis:Parenthesis', name='(', start='(')
+
+
+def lemma_operator_step(self, stack, builder):
+    tokens = [_PREV_OPERAND]
+    self.ast(tokens, stack, builder)
+    return stack, builder
+
+
+class _Dummy:
+    pass
+
+
+def _mk_prev_operand():
+    from formulas.tokens.operand import Number
+    return Number('1')
+
+
+_PREV_OPERAND = _mk_prev_operand()
+
+
+def _step_contract(name):
+    from pyvc.contract import ListT
+    c = Contract(lambda: lemma_operator_step,
+                 dict(self=_optok(name), stack=OneOf(ConstT([]), ListT(_StackOp), ListT(_StackOp, _StackOp), ListT(_OpenPar, _StackOp)),
+                      builder=ConstT([])),
+                 'C01', name='Operator.ast[%s incoming]' % {' ': 'space'}.get(name, name), use=[], frame=('self', 'stack', 'builder'))
+    CONTRACTS.append(c)
+
+    @c.ensures('operators-of-not-lower-rank-leave-the-stack-in-order-then-the-incoming-one-is-pushed', 'P')
+    def _(self, stack, builder, result, old):
+        from formulas.tokens.operator import Operator
+        rank = SPEC_RANK[name]
+        before = old['stack']
+        k = len(before)
+        while k > 0 and isinstance(before[k - 1], Operator) and SPEC_RANK[before[k - 1].attr['name']] >= rank:
+            k -= 1
+        popped = [before[i] for i in range(len(before) - 1, k - 1, -1)]
+        # `old` is a snapshot (copies): tokens are compared by kind and name
+        same = lambda a, b: type(a) is type(b) and a.attr['name'] == b.attr['name']
+        return (len(stack) == k + 1 and stack[-1] is self and all(same(stack[i], before[i]) for i in range(k))
+                and len(builder) == len(popped) and all(same(builder[i], popped[i]) for i in range(len(popped))))
+
+    @c.canary('canary:nothing-ever-popped')
+    def _(self, stack, builder, result, old):
+        return len(builder) == 0
+    return c
+
+
+for _inc in _INCOMING:
+    _step_contract(_inc)
+
+
+PROPERTIES['C01']['explanation'] = (
+    'Proved on the real handlers: (1) the shunting-yard step Operator.ast for every binary / postfix / reference operator incoming on stacks of '
+    'depth <= 2 (one representative per precedence class, also above an opening parenthesis): exactly the operators of not lower Excel rank leave '
+    'the stack, in order (left association), then the incoming one is pushed - ranks taken from the spec table; (2) unary / binary sign '
+    'disambiguation (Operator.update_name) after every kind of previous token; ' + PROPERTIES['C01']['explanation'][0].lower() + PROPERTIES['C01']['explanation'][1:])
+PROPERTIES['C01']['not_proved'] = ['stacks deeper than 2 (the step only inspects the top of the stack repeatedly; no induction over the depth is stated), '
+                                   'argument counting / Separator / Array handlers, sign-run folding: bounded stage only']
